@@ -184,6 +184,9 @@ func (cliSim) Gen(prop, tier string, r *rand.Rand) interface{} {
 	if chance(r, 0.25) {
 		c.Cmd.BaseStyle = pick(r, "slash", "dot", "dslash")
 	}
+	if prop == "C10" && chance(r, 0.2) {
+		c.Cmd.SrcRemote = true
+	}
 	if prop == "C09" && chance(r, 0.25) {
 		c.Cmd.SrcRemote = true
 	} else if prop == "C09" && chance(r, 0.15) {
@@ -206,6 +209,23 @@ func (cliSim) Gen(prop, tier string, r *rand.Rand) interface{} {
 		}
 	}
 	return c
+}
+
+// mismatchLayout draws a layout different from l: an unrelated one, or a
+// near miss that differs only in the point count of one archive.
+func mismatchLayout(r *rand.Rand, l Layout) Layout {
+	if chance(r, 0.5) {
+		l2 := Layout{Archs: append([]Arch(nil), l.Archs...), Method: l.Method, Xff: l.Xff}
+		if chance(r, 0.7) || len(l2.Archs) == 1 {
+			l2.Archs[len(l2.Archs)-1].N += between(r, 1, 5)
+		} else {
+			l2.Archs[0].N++
+		}
+		if l2.Valid() && l2.String() != l.String() {
+			return l2
+		}
+	}
+	return genLayout(r, "small")
 }
 
 func genCopyWorld(r *rand.Rand, c *CliCase, l Layout, vmode int) {
@@ -253,7 +273,7 @@ func genCopyWorld(r *rand.Rand, c *CliCase, l Layout, vmode int) {
 	genWindow(r, l, &cmd)
 	if chance(r, 0.08) {
 		// layout mismatch: the destination has another layout
-		l2 := genLayout(r, "small")
+		l2 := mismatchLayout(r, l)
 		if l2.String() != l.String() {
 			for i := range c.Files {
 				if c.Files[i].Base == "dst" {
@@ -334,7 +354,7 @@ func genDiffWorld(r *rand.Rand, c *CliCase, l Layout, vmode int) {
 	}
 	genWindow(r, l, &cmd)
 	if chance(r, 0.06) && c.EnvFault == "" {
-		l2 := genLayout(r, "small")
+		l2 := mismatchLayout(r, l)
 		if l2.String() != l.String() {
 			for i := range c.Files {
 				if c.Files[i].Base == "dst" {
@@ -397,7 +417,7 @@ func genSumWorld(r *rand.Rand, c *CliCase, l Layout, withDest bool) {
 			c.EnvFault = "pattern-matches-nothing"
 		case 2:
 			// one file with another layout
-			l2 := genLayout(r, "small")
+			l2 := mismatchLayout(r, l)
 			if l2.String() != l.String() {
 				for i := len(c.Files) - 1; i >= 0; i-- {
 					if c.Files[i].Base == "src" {
